@@ -347,6 +347,9 @@ def run(report: core.Report):
     fi = pm.func("gapic.samplegen_utils.snippet_index.SnippetIndex.get_metadata_json")
     src = ast.unparse(fi.node)
     r5.instance("snippet index sort")
-    r5.check(".sort(key=lambda" in src and "region_tag" in src, fi.module.path, fi.node.lineno,
+    from ..pymodel import nfunc as _nfunc
+    nsrc = ast.unparse(_nfunc(pm, fi))       # sort keys given as operator.attrgetter(...) constants are inlined in the normal form
+    by_tag = (".sort(key=" in src or "sorted(" in src) and any(k in nsrc for k in ("attrgetter('region_tag')", ".region_tag"))
+    r5.check(by_tag and ("sort(" in src or "sorted(" in src), fi.module.path, fi.node.lineno,
              "SnippetIndex.get_metadata_json sorts snippets by region_tag",
              "snippets are no longer sorted by region_tag before serialisation")
